@@ -9,7 +9,8 @@ use zeromq::{Endpoint, ZmqError};
 use zvcore::evidence::{Check, Tier};
 use zvcore::refcodec as rc;
 
-const OPS: [&str; 10] = ["bind-tcp4", "bind-tcp6", "bind-localhost", "bind-ipc", "bind-duplicate", "unbind-oldest", "unbind-unknown", "connect-in-each", "exchange-established", "rebind-last-unbound"];
+const OPS: [&str; 11] = ["bind-tcp4", "bind-tcp6", "bind-localhost", "bind-ipc", "bind-duplicate", "unbind-oldest", "unbind-unknown", "connect-in-each", "exchange-established", "rebind-last-unbound", "150-failed-handshakes-on-oldest"];
+const FAILED_HANDSHAKES: usize = 150;
 
 struct Client {
     s: RawStream,
@@ -140,6 +141,35 @@ async fn run_sequence(ty: Ty, seq: &[u8]) -> Vec<(String, String)> {
                     }
                 }
             }
+            10 => {
+                // many clients, one after the other, connect to the oldest bound endpoint, send part of a greeting and
+                // close: the endpoint stays bound and must go on accepting (checked by the steps that follow)
+                if let Some(ep) = model.first().cloned() {
+                    for k in 0..FAILED_HANDSHAKES {
+                        match tokio::time::timeout(e4::HORIZON, RawStream::connect(&ep)).await {
+                            Ok(Ok(mut s)) => {
+                                let _ = s.write_all(&rc::default_greeting()[..10 + (k % 3) * 27]).await;
+                                drop(s);
+                            }
+                            _ => {
+                                viol.push(("bound-endpoint/not-connectable".into(), format!("{}: raw connect #{} to {} failed", at, k, ep)));
+                                break;
+                            }
+                        }
+                    }
+                    // and a well-behaved client right behind them
+                    match connect_in(ty, &ep.to_string()).await {
+                        Ok(s) => {
+                            let mut c = Client { s, via: ep.clone(), n: 0 };
+                            if let Err(e) = exchange(ty, &mut sock, &mut c, "after-failures").await {
+                                viol.push(("bound-endpoint/exchange-failed".into(), format!("{}: exchange over a fresh connection to {} after {} failed handshakes failed: {}", at, ep, FAILED_HANDSHAKES, e)));
+                            }
+                            clients.push(c);
+                        }
+                        Err(e) => viol.push(("bound-endpoint/not-connectable".into(), format!("{}: after {} clients that closed in mid-handshake, {} (still bound) is no longer connectable: {}", at, FAILED_HANDSHAKES, ep, e))),
+                    }
+                }
+            }
             9 => {
                 // an endpoint that was unbound is free again: binding its text form must succeed and give the same endpoint
                 if let Some(ep) = ever.iter().rev().find(|e| !model.contains(e)).cloned() {
@@ -193,7 +223,7 @@ async fn run_sequence(ty: Ty, seq: &[u8]) -> Vec<(String, String)> {
     viol
 }
 
-fn sequences(max_len: usize) -> Vec<Vec<u8>> {
+fn sequences(max_len: usize, max_len_with_failures: usize) -> Vec<Vec<u8>> {
     let mut all: Vec<Vec<u8>> = Vec::new();
     let mut level: Vec<Vec<u8>> = vec![vec![]];
     for _ in 0..max_len {
@@ -211,6 +241,13 @@ fn sequences(max_len: usize) -> Vec<Vec<u8>> {
                 if op == 9 && !s.contains(&5) {
                     continue;
                 }
+                // the expensive operation: at most once, in the shorter sequences, and only with something bound
+                if op == 10 && (binds == 0 || s.contains(&10)) {
+                    continue;
+                }
+                if s.len() + 1 > max_len_with_failures && (op == 10 || s.contains(&10)) {
+                    continue;
+                }
                 let mut t = s.clone();
                 t.push(op);
                 next.push(t);
@@ -225,10 +262,11 @@ fn sequences(max_len: usize) -> Vec<Vec<u8>> {
 fn all_cases(tier: Tier) -> Vec<(Ty, Vec<u8>)> {
     let mut v = Vec::new();
     let (l_rep, l_pull) = tier.pick((4, 4), (5, 5));
-    for s in sequences(l_rep) {
+    let lf = tier.pick(3, 4);
+    for s in sequences(l_rep, lf) {
         v.push((Ty::Rep, s));
     }
-    for s in sequences(l_pull) {
+    for s in sequences(l_pull, lf) {
         v.push((Ty::Pull, s));
     }
     v
@@ -337,7 +375,7 @@ pub fn run(tier: Tier, replay: Option<String>) -> i32 {
     ck.cov("sequences_by_length", json!(lens.iter().map(|(k, v)| (k.to_string(), *v)).collect::<std::collections::BTreeMap<_, _>>()));
     ck.cov("isolated_network_namespaces", isolated);
     ck.cov("exhaustive", skipped == 0);
-    ck.cov("rule", format!("every sequence of length <= {} over the 9 operations {:?} (operations that need a bound endpoint or an established client are omitted where they would be no-ops) on a real REP and a real PULL socket on the real tokio runtime: {} sequences; distinct by construction; non-trivial = contains at least one bind. After EVERY operation: return value as the reference model says (wildcard port resolved non-zero, duplicate bind fails and changes nothing, unbind of anything not bound fails with NoSuchBind), binds() equals the model's set, every bound endpoint accepts a fresh connection by its text form and completes a message exchange, every endpoint not bound (any more) refuses at once, connections established earlier keep working across later unbinds. Each worker process runs in its own network namespace so that no other process can take a port this check expects to be free.", tier.pick(4, 5), OPS, cases.len()));
+    ck.cov("rule", format!("every sequence of length <= {} over the 11 operations {:?} (operations that need a bound endpoint or an established client are omitted where they would be no-ops; the last operation - 150 clients that close in mid-handshake one after the other, then a well-behaved one - at most once and in sequences of length <= {}) on a real REP and a real PULL socket on the real tokio runtime: {} sequences; distinct by construction; non-trivial = contains at least one bind. After EVERY operation: return value as the reference model says (wildcard port resolved non-zero, duplicate bind fails and changes nothing, unbind of anything not bound fails with NoSuchBind), binds() equals the model's set, every bound endpoint accepts a fresh connection by its text form and completes a message exchange, every endpoint not bound (any more) refuses at once, connections established earlier keep working across later unbinds. Each worker process runs in its own network namespace so that no other process can take a port this check expects to be free.", tier.pick(4, 5), OPS, tier.pick(3, 4), cases.len()));
     ck.sample(json!({"type":"REP","ops":["bind-tcp4","connect-in-each","unbind-oldest","exchange-established"]}));
     ck.assume("OS schedules are not enumerated; conditions the statement ties to a return are tested immediately after the return");
     ck.conclude()
